@@ -29,8 +29,10 @@ Step(B, p, L, h) == /\ Report(B) /\ bad' = B /\ pos' = p /\ legal' = L /\ hist' 
 Fresh == /\ Ev("fresh")
          /\ Step(Fail("fresh-engine-holds-the-standard-position", PosOfJson(Rec[l].board) = StdPos), StdPos, Legal(StdPos), <<>>)
 
+\* the given board is installed (clocks included) and the history is forgotten
 SetBoard == /\ Ev("set_board")
-            /\ LET p == PosOfJson(Rec[l].board) IN Step({}, p, Legal(p), <<>>)
+            /\ LET p == PosOfJson(Rec[l].arg) IN
+               Step(Fail("set_board-installs-the-given-board", PosOfJson(Rec[l].board) = p), p, Legal(p), <<>>)
 
 MakeMove ==
     /\ Ev("make_move")
